@@ -62,6 +62,8 @@ def check_codec(chk, tier: str, pool, f_model) -> None:
     for c in range(nconc):
       cc = (c + chk.seed) % 12
       for way in codec.WAYS:
+        if c > 0 and way in codec.FIRST_CONC_ONLY:
+          continue
         rows.append(codec.observe(e['v'], vi, cc, way))
   chk.notes['rows_observed'] = len(rows)
   futs = []
@@ -130,7 +132,7 @@ def extra_cases(chk) -> None:
     for way, fn in codec.WAYS.items():
       n += 1
       try:
-        back = fn(value)
+        back = fn(value, bool(pg.is_partial(value)))
         how = None
         if not (type(back) is type(value) and eqf(value, back)):
           how = 'value'
